@@ -1095,7 +1095,8 @@ def run(ctx, P, use_model=True):
                 'non-trivial = invertible bordered Hessian; distinct = (kind, seed). User tables: random histories (1-5 ops) of setMobility/setDiffusivity '
                 'with a dict of different Arrhenius functions in a random key order (sometimes partial) / one function / element=X (dict with further ignored entries), '
                 'random mobility corrections, on private instances of Al-Zr without parameters, Al-Zr (diffusivity only), Ni-Al, Ni-Cr, Ni-Cr-Al, Ni-Al-Cr; evaluated after '
-                'every op at one (x, T) and at the end at a second T and a second x; non-trivial = a user function is read without error')
+                'every op at one (x, T) and at the end at a second T and a second x; non-trivial = a user function is read without error; '
+                'array calls of getInterdiffusivity / getTracerDiffusivity (the same composition at two temperatures, a second composition, a repeat) compared entry by entry with the scalar calls')
     res.monitored = list(MONITORED)
     cases, lines, spans, ucases = [], [], [], []
     G = vlib.guarded
